@@ -83,6 +83,7 @@ class Cls:
     doc: Optional[str] = None
     dbc: bool = True
     kw_super: bool = False  # call the super constructors with keyword arguments
+    method_blocks: List[List[str]] = field(default_factory=list)  # raw method definitions (already indented)
 
 
 @dataclass
@@ -221,7 +222,8 @@ class Spec:
             Cls(c["name"], list(c["bases"]), bool(c["abstract"]),
                 [Prop(p["name"], tref(p["type"]), p.get("doc")) for p in c["props"]],  # type: ignore
                 [inv(i) for i in c.get("invs", [])], bool(c.get("with_model_type")), c.get("doc"),
-                bool(c.get("dbc", True)), bool(c.get("kw_super", False)))
+                bool(c.get("dbc", True)), bool(c.get("kw_super", False)),
+                [list(b) for b in (c.get("method_blocks") or [])])
             for c in d.get("classes", [])
         ]
         spec.consts = [Const(c["name"], c["kind"], c.get("value"), c.get("enum"), list(c.get("superset_of") or []),
@@ -290,6 +292,9 @@ def render_class(spec: Spec, cls: Cls) -> List[str]:
         body.extend(_doc(p.doc, "    "))
         if p.doc is not None:
             body.append("")
+    for blk in cls.method_blocks:
+        body.append("")
+        body.extend(blk)
     all_props = spec.all_props(cls.name)
     if all_props:
         args = ctor_args(spec, cls)
@@ -423,6 +428,7 @@ from aas_core_meta.marker import (
     implementation_specific,
     verification,
     constant_set,
+    non_mutating,
 )
 """
 
@@ -479,6 +485,7 @@ class Opts:
     bytes_props: bool = True
     weird_values: bool = False  # nan/inf/huge ints in constants
     patterns: Optional[Any] = None  # strategy for anchored patterns (else a small built-in pool)
+    class_weight: int = 1  # relative weight of class-typed properties / list items
 
 
 PATTERN_EXAMPLES = {
@@ -707,7 +714,7 @@ def specs(draw: Any, opts: Opts = Opts()) -> Spec:
             kinds += ["cp", "cp"]
         if spec.enums:
             kinds.append("enum")
-        kinds += ["class"]
+        kinds += ["class"] * opts.class_weight
         if depth == 0:
             kinds += ["list", "list"]
         elif opts.nested_lists and depth == 1:
